@@ -19,9 +19,9 @@ func init() {
 	})
 	prop(&PropertySpec{
 		ID: "C13", Level: "other",
-		Rules: []string{"R13.1", "R13.2", "R13.3", "R13.4", "R13.5"},
+		Rules: []string{"R13.1", "R13.2", "R13.3", "R13.4", "R13.5", "R13.6"},
 		Explanation: "R13.1 lockset: every read of callbacks/callbacksAll/callbackID (including operations on maps loaded from them) holds Connection.mu (read or write), every write holds it exclusively, except construction before the value is returned; R13.2 registered callbacks are invoked while the read lock is held (so an unsubscribe that has returned excludes further calls); " +
-			"R13.3 each inserted key is the callbackID value read in the same critical section and callbackID is stored +1 before the unlock on every path, both inserters sharing the one counter; R13.4 each remover deletes exactly its own (type, id) entry, and the type's inner map only when it is empty; R13.5 dispatch looks up callbacks with exactly ev.Type, ranges that map and callbacksAll and calls each value once with ev.",
+			"R13.3 each inserted key is the callbackID value read in the same critical section and callbackID is stored +1 before the unlock on every path, both inserters sharing the one counter; R13.4 each remover deletes exactly its own (type, id) entry, and the type's inner map only when it is empty; R13.5 dispatch looks up callbacks with exactly ev.Type, ranges that map and callbacksAll and calls each value once with ev; R13.6 SubscribeEvent registers (through addSubscriber) under exactly the type string it was given, SubscribeMessages under the empty type, SubscribeToAll through addSubscriberToAll, each with the caller's callback and returning the registration's remover, on every path.",
 		NotDecided: "stream order seen by callbacks over schedules (single dispatching goroutine by call structure); re-entrancy (a callback calling its own remover under the read lock).",
 		Technique:  "static analysis: must-hold lockset dataflow + value provenance on SSA",
 	})
@@ -34,6 +34,7 @@ func init() {
 	register(&Rule{ID: "R13.2", Title: "callbacks are invoked under the read lock", Floor: 2, Run: r13_2})
 	register(&Rule{ID: "R13.3", Title: "unique callback ids from one counter", Floor: 2, Run: r13_3})
 	register(&Rule{ID: "R13.4", Title: "removers delete exactly their own entry", Floor: 2, Run: r13_4})
+	register(&Rule{ID: "R13.6", Title: "the exported Subscribe* wrappers register under the type they were given", Floor: 3, Run: r13_6})
 	register(&Rule{ID: "R13.5", Title: "dispatch routes by ev.Type and to subscribe-to-all callbacks, once each", Floor: 3, Run: r13_5})
 }
 
@@ -92,7 +93,45 @@ func r10_1(c *Ctx) {
 		errP := cb.Params[1]
 		g := guardedByNil(cb, st.Block(), func(v ssa.Value) bool { return v == ssa.Value(errP) }, true)
 		c.check(valOK && g, name, P.ipos(st), "stores the dispatched event's LastEventID on the non-error branch", "the stored value is not the yielded event's LastEventID, or the store is not on the err == nil branch")
-		// the store precedes dispatch in the same callback (the ID of the dispatched event)
+		// ... on every path of that branch: an empty ID (the server's reset) is stored like any other
+		skipped := false
+		for _, ifi := range ifsIn(cb) {
+			sn, ok := nilEdge(ifi, func(v ssa.Value) bool { return v == ssa.Value(errP) })
+			if !ok {
+				continue
+			}
+			for _, ret := range returnsOf(cb) {
+				if reachesAvoiding(atEdge(ifi.Block(), sn), ret, func(in ssa.Instruction) bool { return in == ssa.Instruction(st) }, nil) {
+					skipped = true
+				}
+			}
+		}
+		// ... and is handed to dispatch on every such path (whether anybody listens is decided per event, under
+		// the lock, by dispatch itself)
+		{
+			var disp ssa.Instruction
+			eachInstrDeep(cb, func(in ssa.Instruction) {
+				if _, ok := isModCall(in, "(*Connection).dispatch"); ok {
+					if li, ok := liftInstr(in, cb); ok {
+						disp = li
+					}
+				}
+			})
+			dskip := disp == nil
+			for _, ifi := range ifsIn(cb) {
+				sn, ok := nilEdge(ifi, func(v ssa.Value) bool { return v == ssa.Value(errP) })
+				if !ok || disp == nil {
+					continue
+				}
+				for _, ret := range returnsOf(cb) {
+					if reachesAvoiding(atEdge(ifi.Block(), sn), ret, func(in ssa.Instruction) bool { return in == disp }, nil) {
+						dskip = true
+					}
+				}
+			}
+			c.check(!dskip, fnLabel(cb)+":dispatch-unconditional", P.pos(cb.Pos()), "every event delivered without error is handed to dispatch", "an event delivered without error can bypass dispatch (e.g. a `does anyone listen` flag computed once per connection): callbacks subscribed while the connection is open never see it")
+		}
+		c.check(!skipped, name+":unconditional", P.ipos(st), "every event delivered without error updates the stored ID (also with the empty ID)", "a delivered event can leave Connection.lastEventID unchanged (the store is conditional): an empty id field no longer clears the ID sent on reconnect")
 	}
 	if n == 0 {
 		c.bad(fnLabel(cb)+":write(lastEventID)", P.pos(cb.Pos()), "no store to Connection.lastEventID: reconnects never carry the last received ID")
@@ -194,6 +233,29 @@ func r10_2(c *Ctx) {
 		"Header.Set(Last-Event-ID, c.lastEventID) on the non-empty edge", "the Last-Event-ID header is not set to c.lastEventID exactly when it is non-empty")
 	c.check(edgeDominates(emptyE.From, emptyE.Idx, del[0].Block()) && hdrOf(del[0]), name+":del", P.ipos(del[0]),
 		"Header.Del(Last-Event-ID) on the empty edge", "the Last-Event-ID header is not deleted when the last event ID is empty: a stale ID keeps being sent")
+	// every successful return on the retry path has updated the header (a merged-in body reset must not
+	// return before it)
+	{
+		isFlag := func(v ssa.Value) bool { _, ok := isFieldLoad(v, "Connection", "isRetry"); return ok }
+		isHdr := func(in ssa.Instruction) bool { return in == ssa.Instruction(set[0]) || in == ssa.Instruction(del[0]) }
+		skipped := false
+		for _, ifi := range ifsIn(fn) {
+			if sT, ok := boolEdge(ifi, isFlag); ok {
+				for _, ret := range returnsOf(fn) {
+					nilRet := true
+					for _, sv := range sources(ret.Results[0]) {
+						if !isNilConst(sv) {
+							nilRet = false
+						}
+					}
+					if nilRet && reachesAvoiding(atEdge(ifi.Block(), sT), ret, isHdr, nil) {
+						skipped = true
+					}
+				}
+			}
+		}
+		c.check(!skipped, name+":header-on-every-retry", P.pos(fn.Pos()), "every successful return of a retry has set or deleted the Last-Event-ID header", "a retry can return successfully without updating the Last-Event-ID header (e.g. right after a fresh body was installed): reconnects of requests with a body never carry the last event ID")
+	}
 	// after the body reset succeeded
 	if bodyReset == nil {
 		// merged form: the body is re-obtained in place (R10.4 decides its discipline); the header must not
@@ -282,7 +344,7 @@ func r10_4(c *Ctx) {
 		if !inSSEPackage(f) || f.Synthetic != "" {
 			continue
 		}
-		eachInstrDeep(f, func(in ssa.Instruction) {
+		eachInstr(f, func(in ssa.Instruction) {
 			if call, ok := in.(*ssa.Call); ok && call.Call.StaticCallee() == nil && !call.Call.IsInvoke() {
 				if _, ok := isFieldLoad(call.Call.Value, "http.Request", "GetBody"); ok {
 					get = call
@@ -506,7 +568,21 @@ func r10_5(c *Ctx) {
 			nW++
 			st := a.Use.(*ssa.Store)
 			b, isC := constBool(st.Val)
-			c.check(a.Fn == fn && isC && b && guardedByBool(fn, st.Block(), isFlag, false), name, P.ipos(st), "isRetry is stored true, on the first-attempt path only", "isRetry is written elsewhere / reset to false: the first-attempt path (no body reset, no header) is taken again on a retry")
+			// stored true on the first-attempt path, or unconditionally after the flag was read (the flag is
+			// monotone: storing true again on a retry changes nothing)
+			afterRead := false
+			eachInstr(fn, func(in ssa.Instruction) {
+				if u, ok := in.(*ssa.UnOp); ok && isFlag(u) && instrDominates(u, st) {
+					afterRead = true
+				}
+			})
+			unreadAfter := true
+			eachInstr(fn, func(in ssa.Instruction) {
+				if u, ok := in.(*ssa.UnOp); ok && isFlag(u) && reachesAvoiding(afterInstr(st), u, nil, nil) {
+					unreadAfter = false
+				}
+			})
+			c.check(a.Fn == fn && isC && b && (guardedByBool(fn, st.Block(), isFlag, false) || (afterRead && unreadAfter)), name, P.ipos(st), "isRetry is stored true (on the first-attempt path, or after it was read)", "isRetry is written elsewhere / reset to false: the first-attempt path (no body reset, no header) is taken again on a retry")
 		case "read":
 			c.check(a.Fn == fn, name, P.ipos(a.Instr), "read only in resetRequest", "isRetry is read outside resetRequest")
 		default:
@@ -682,7 +758,7 @@ func r13_1(c *Ctx) {
 				c.check(st >= lkR, name, P.ipos(in), "read under the lock", "a read of "+what+" does not hold Connection.mu: data race with concurrent (un)subscriptions")
 			}
 		}
-		eachInstrDeep(fn, func(in ssa.Instruction) {
+		eachInstr(fn, func(in ssa.Instruction) {
 			// field-level accesses
 			if v, ok := in.(ssa.Value); ok {
 				if o, n, base, ok := fieldSel(v); ok && o == "Connection" {
@@ -742,12 +818,13 @@ func r13_1(c *Ctx) {
 func r13_2(c *Ctx) {
 	P := c.P
 	n := 0
+	deferChecked := map[*ssa.Function]bool{}
 	for _, fn := range P.Funcs {
 		if !inSSEPackage(fn) {
 			continue
 		}
 		var ls map[ssa.Instruction]int
-		eachInstrDeep(fn, func(in ssa.Instruction) {
+		eachInstr(fn, func(in ssa.Instruction) {
 			call, ok := in.(*ssa.Call)
 			if !ok || call.Call.IsInvoke() || call.Call.StaticCallee() != nil {
 				return
@@ -774,6 +851,20 @@ func r13_2(c *Ctx) {
 				ls = locksetOf(fn)
 			}
 			c.check(ls[in] >= lkR, fnLabel(fn)+":invoke-callback", P.ipos(in), "registered callback invoked while the read lock is held", "a registered callback is invoked without holding Connection.mu: after its unsubscribe function returned it can still be called")
+			// user code runs under the lock, so the lock is released by a deferred call: a panicking callback
+			// (recovered by the application) must not leave the lock held
+			if !deferChecked[fn] {
+				deferChecked[fn] = true
+				deferred := false
+				eachInstr(fn, func(x ssa.Instruction) {
+					if d, ok := x.(*ssa.Defer); ok {
+						if callee := d.Call.StaticCallee(); callee != nil && (callee.String() == "(*sync.RWMutex).RUnlock" || callee.String() == "(*sync.RWMutex).Unlock") {
+							deferred = true
+						}
+					}
+				})
+				c.check(deferred, fnLabel(fn)+":unlock-deferred", P.pos(fn.Pos()), "the lock held while callbacks run is released by a deferred call", "the lock held while user callbacks run is released by a plain call: a callback that panics (and is recovered above Connect) leaves Connection.mu read-locked, so every later unsubscribe blocks for ever and new dispatches stall")
+			}
 		})
 	}
 	if n == 0 {
@@ -789,7 +880,7 @@ func r13_3(c *Ctx) {
 			continue
 		}
 		ls := map[ssa.Instruction]int(nil)
-		eachInstrDeep(fn, func(in ssa.Instruction) {
+		eachInstr(fn, func(in ssa.Instruction) {
 			mu, ok := in.(*ssa.MapUpdate)
 			if !ok || !guardedMapValue(mu.Map) {
 				return
@@ -866,10 +957,11 @@ func r13_4(c *Ctx) {
 	P := c.P
 	n := 0
 	for _, fn := range P.Funcs {
-		if !inSSEPackage(fn) || fn.Parent() == nil {
+		if !inSSEPackage(fn) || fn.Parent() == nil || iifeSiteCached(fn) != nil {
 			continue
 		}
-		// a remover: closure of a Connection method that deletes from a guarded map
+		// a remover: closure of a Connection method that deletes from a guarded map (possibly through an
+		// inlined helper, i.e. an immediately-invoked literal inside the closure)
 		par := fn.Parent()
 		if par.Signature.Recv() == nil || !typeIs(par.Signature.Recv().Type(), "sse", "Connection") {
 			continue
@@ -899,6 +991,28 @@ func r13_4(c *Ctx) {
 		name := fnLabel(fn)
 		if other != "" {
 			c.bad(name+":extra-effect", P.pos(fn.Pos()), "the remover performs "+other+" besides deleting its own entry")
+		}
+		// a remover returns only after it has held the lock: "after an unsubscribe function has returned its
+		// callback is never invoked again" needs every call (also a repeated or concurrent one) to wait for a
+		// dispatch in flight
+		{
+			isLock := func(in ssa.Instruction) bool {
+				call, ok := in.(*ssa.Call)
+				if !ok || len(call.Call.Args) == 0 {
+					return false
+				}
+				if _, isMu := isFieldSel(call.Call.Args[0], "Connection", "mu"); !isMu {
+					return false
+				}
+				return calleeName(call) == "(*sync.RWMutex).Lock"
+			}
+			early := false
+			for _, ret := range returnsOf(fn) {
+				if reachesAvoiding(entryPoint(fn), ret, isLock, nil) {
+					early = true
+				}
+			}
+			c.check(!early, name+":returns-after-lock", P.pos(fn.Pos()), "every return of the remover comes after it acquired the lock", "a remover can return without having acquired Connection.mu (e.g. a fast path for repeated calls): a repeated or concurrent call returns while a dispatch still runs the callback")
 		}
 		// find the parent's insert: key cell and (for typed) event cell
 		var insert *ssa.MapUpdate
@@ -949,7 +1063,11 @@ func r13_4(c *Ctx) {
 				}
 				lk := struct{ Index ssa.Value }{idxs[0]}
 				g := false
-				for _, ifi := range ifsIn(fn) {
+				var rifs []*ssa.If
+				for _, rf := range regionFuncs(fn) {
+					rifs = append(rifs, ifsIn(rf)...)
+				}
+				for _, ifi := range rifs {
 					op, kk, succ, ok := cmpConstEdge(ifi, func(v ssa.Value) bool {
 						call, ok := v.(*ssa.Call)
 						if !ok {
@@ -1161,3 +1279,158 @@ func isLenOfGuarded(v ssa.Value) bool {
 	b, ok := call.Call.Value.(*ssa.Builtin)
 	return ok && b.Name() == "len" && guardedMapValue(call.Call.Args[0])
 }
+
+// ---------------------------------------------------------------------------
+// R13.6: the exported subscription wrappers
+
+func r13_6(c *Ctx) {
+	P := c.P
+	type spec struct {
+		fn, target string
+		typArg     string // "param", "empty", "" (none)
+	}
+	for _, sp := range []spec{
+		{"(*Connection).SubscribeEvent", "(*Connection).addSubscriber", "param"},
+		{"(*Connection).SubscribeMessages", "(*Connection).addSubscriber", "empty"},
+		{"(*Connection).SubscribeToAll", "(*Connection).addSubscriberToAll", ""},
+	} {
+		fn := P.Fn(sp.fn)
+		if fn == nil {
+			c.anchor(sp.fn)
+			continue
+		}
+		name := fnLabel(fn) + ":forwards"
+		// follow exported wrappers calling each other (SubscribeMessages -> SubscribeEvent -> addSubscriber)
+		var reg *ssa.Call
+		typVal := func(call *ssa.Call, i int) ssa.Value { return call.Call.Args[i] }
+		cur := fn
+		var typ ssa.Value // the type value in terms of fn: a parameter of fn or a constant
+		good, why := true, ""
+		selfReg := false
+		cb := ssa.Value(fn.Params[len(fn.Params)-1])
+		for hop := 0; hop < 3 && reg == nil; hop++ {
+			var next *ssa.Call
+			eachInstrDeep(cur, func(in ssa.Instruction) {
+				call, ok := in.(*ssa.Call)
+				if !ok {
+					return
+				}
+				switch calleeName(call) {
+				case expandName(sp.target):
+					reg = call
+				case expandName("(*Connection).SubscribeEvent"), expandName("(*Connection).addSubscriber"), expandName("(*Connection).addSubscriberToAll"):
+					if next == nil {
+						next = call
+					}
+				}
+			})
+			if reg != nil {
+				next = reg
+			}
+			if next == nil {
+				if P.Fn(sp.target) == nil && hop > 0 || (P.Fn(sp.target) == nil && cur == fn) {
+					// the registration helper was merged into the exported method: it registers itself, under
+					// the key it is given
+					regSelf := true
+					isTyp := func(v ssa.Value) bool { return len(cur.Params) == 3 && carriesOnly(v, cur.Params[1]) }
+					n := 0
+					for _, g := range append([]*ssa.Function{cur}, cur.AnonFuncs...) {
+						eachInstr(g, func(in ssa.Instruction) {
+							var key ssa.Value
+							switch x := in.(type) {
+							case *ssa.Lookup:
+								if _, ok := isFieldLoad(x.X, "Connection", "callbacks"); ok {
+									key = x.Index
+								}
+							case *ssa.MapUpdate:
+								if _, ok := isFieldLoad(x.Map, "Connection", "callbacks"); ok {
+									key = x.Key
+								}
+							}
+							if key != nil {
+								n++
+								if !isTyp(key) {
+									regSelf = false
+								}
+							}
+						})
+					}
+					if sp.target == expandNameShort("(*Connection).addSubscriberToAll") {
+						regSelf, n = true, 1
+					}
+					if regSelf && n > 0 {
+						selfReg = true
+					} else {
+						good, why = false, "the per-type map is indexed with something other than the type given"
+					}
+				}
+				break
+			}
+			// every return of cur yields next's result, and no return precedes it
+			for _, ret := range returnsOf(cur) {
+				if len(ret.Results) != 1 {
+					continue
+				}
+				for _, sv := range sources(ret.Results[0]) {
+					if sv != ssa.Value(next) {
+						good, why = false, "the remover returned is not the registration's"
+					}
+				}
+			}
+			// arguments in terms of cur's parameters
+			a := next.Call.Args
+			if !carriesOnly(a[len(a)-1], cur.Params[len(cur.Params)-1]) && a[len(a)-1] != cb {
+				good, why = false, "the caller's callback is not what is registered"
+			}
+			if len(a) == 3 {
+				tv := typVal(next, 1)
+				switch {
+				case typ == nil && len(cur.Params) == 3 && carriesOnly(tv, cur.Params[1]):
+					typ = cur.Params[1]
+				case typ == nil && len(cur.Params) == 2:
+					if k, isK := constString(tv); isK {
+						_ = k
+						typ = tv
+					} else {
+						good, why = false, "the type registered under is not a constant"
+					}
+				case typ != nil && len(cur.Params) == 3 && carriesOnly(tv, cur.Params[1]):
+					// passed through unchanged
+				default:
+					good, why = false, "the type string is changed on its way to the registration (e.g. one name mapped to another)"
+				}
+			}
+			if reg == nil {
+				if callee := next.Call.StaticCallee(); callee != nil {
+					cur = callee
+				}
+			}
+		}
+		if reg == nil && selfReg {
+			if sp.typArg == "empty" {
+				if k, isK := constString(typ); !isK || k != "" {
+					good, why = false, "unnamed events are not registered under the empty type"
+				}
+			}
+			c.check(good, name, P.pos(fn.Pos()), "registers the caller's callback itself, under the type given (the registration helper is merged into the exported method)", sp.fn+" does not simply register the callback under the type it was given ("+why+")")
+			continue
+		}
+		if reg == nil {
+			c.bad(name, P.pos(fn.Pos()), sp.fn+" does not register through "+sp.target)
+			continue
+		}
+		switch sp.typArg {
+		case "param":
+			if typ != ssa.Value(fn.Params[1]) {
+				good, why = false, "the type registered under is not the one given"
+			}
+		case "empty":
+			if k, isK := constString(typ); !isK || k != "" {
+				good, why = false, "unnamed events are not registered under the empty type"
+			}
+		}
+		c.check(good, name, P.ipos(reg), "registers the caller's callback under the type given and returns that registration's remover", sp.fn+" does not simply register the callback under the type it was given ("+why+"): callbacks receive events of another type, or miss their own")
+	}
+}
+
+func expandNameShort(s string) string { return s }
